@@ -1304,12 +1304,11 @@ func calleeTestsReceiver(f *ssa.Function) bool {
 
 func guardedByPresence(b *ssa.BasicBlock, val, okv ssa.Value) bool {
 	for _, g := range guardsOf(b) {
-		if okv != nil && g.cond == okv && g.then {
-			return true
-		}
-		// !ok: UnOp NOT
-		if un, isUn := g.cond.(*ssa.UnOp); isUn && un.Op == token.NOT && okv != nil && un.X == okv && !g.then {
-			return true
+		if okv != nil {
+			// ok, !ok, ok == true, ok == false, ok != false ...
+			if v, pos := boolCore(g.cond); v == okv && pos == g.then {
+				return true
+			}
 		}
 		if bo, isBO := g.cond.(*ssa.BinOp); isBO && (bo.X == val || bo.Y == val) && (isNilConst(bo.X) || isNilConst(bo.Y)) {
 			if (bo.Op == token.NEQ && g.then) || (bo.Op == token.EQL && !g.then) {
@@ -1318,4 +1317,38 @@ func guardedByPresence(b *ssa.BasicBlock, val, okv ssa.Value) bool {
 		}
 	}
 	return false
+}
+
+// boolCore strips negations and comparisons with boolean constants:
+// !x, x == false, x != true  ->  (x, false);  x, x == true, x != false -> (x, true).
+func boolCore(c ssa.Value) (ssa.Value, bool) {
+	pos := true
+	for i := 0; i < 4; i++ {
+		switch x := c.(type) {
+		case *ssa.UnOp:
+			if x.Op == token.NOT {
+				c, pos = x.X, !pos
+				continue
+			}
+		case *ssa.BinOp:
+			if x.Op == token.EQL || x.Op == token.NEQ {
+				for _, pr := range [][2]ssa.Value{{x.X, x.Y}, {x.Y, x.X}} {
+					if k, ok := pr[1].(*ssa.Const); ok && k.Value != nil && (k.Value.String() == "true" || k.Value.String() == "false") {
+						want := k.Value.String() == "true"
+						if x.Op == token.NEQ {
+							want = !want
+						}
+						if !want {
+							pos = !pos
+						}
+						c = pr[0]
+						goto next
+					}
+				}
+			}
+		}
+		return c, pos
+	next:
+	}
+	return c, pos
 }
